@@ -229,6 +229,11 @@ func (in *Interp) branch(c *Term) bool {
 // unconditional nondeterministic choice).
 func (in *Interp) choose(k int, cond func(i int) *Term) int {
 	if in.concrete {
+		if cond == nil {
+			// a scheduling decision: concrete mode runs one seeded schedule
+			in.schedSeed = (in.schedSeed+in.seed)*6364136223846793005 + 1442695040888963407
+			return int((in.schedSeed >> 33) % uint64(k))
+		}
 		panic("n-way decision in concrete mode")
 	}
 	if in.noFork {
